@@ -348,6 +348,7 @@ func runReadonly(w *prog.World, drv *lib.Driver, cfg gw.Config, setup prog.Setup
 	lines := setup.Lines(w.Root.Access)
 	nsetup := len(lines)
 	for _, o := range pre {
+		o.ResolveRefs(steps)
 		obs := w.Exec(o)
 		steps = append(steps, &prog.Step{Op: o, Impl: obs.Line(), Obs: obs})
 		lines = append(lines, o.ModelLine(obs))
@@ -362,6 +363,7 @@ func runReadonly(w *prog.World, drv *lib.Driver, cfg gw.Config, setup prog.Setup
 	lines = append(lines, "gw cfg 1 "+b)
 	snap := lib.TakeSnapshot(cfg.Root, cfg.VersioningDir, cfg.Sidecar)
 	for _, o := range body {
+		o.ResolveRefs(steps)
 		obs := w.Exec(o)
 		steps = append(steps, &prog.Step{Op: o, Impl: obs.Line(), Obs: obs})
 		lines = append(lines, o.ModelLine(obs))
@@ -410,6 +412,45 @@ func init() {
 						return "correspondence", s.Op.Kind + ":error-code"
 					}
 					return "property", "readonly:" + s.Op.Kind + ":" + class
+				}})
+		}, func(a lib.Args, res *lib.Result) error {
+			// versions and uploads that exist when the gateway turns read-only: deletes by version id, batch
+			// deletes naming versions, part uploads / copies / completion / abort of an upload in progress
+			ro := func(s *prog.Step, class string) (string, string) {
+				if class == "fine" {
+					return "correspondence", s.Op.Kind + ":error-code"
+				}
+				return "property", "readonly:" + s.Op.Kind + ":" + class
+			}
+			return runPrograms(a, res, progOpts{name: "readonly-versions-uploads", prop: "C15", programs: tierN(a, 12, 200), readonly: true, versioning: true, seedOff: 17, classify: ro,
+				setupOps: func(g *prog.Gen) []*prog.Op {
+					b := "ro-v"
+					put := func(k string) *prog.Op {
+						return &prog.Op{Kind: "putObject", Caller: "root", B: b, K: k, Put: g.PutSpec(), Valid: true}
+					}
+					return []*prog.Op{{Kind: "createBucket", Caller: "root", B: b, Valid: true}, {Kind: "putVersioning", Caller: "root", B: b, On: true},
+						put("k1"), put("k1"), {Kind: "deleteObject", Caller: "root", B: b, K: "k1"}, put("k1"), put("dir/k2"),
+						{Kind: "createUpload", Caller: "root", B: b, K: "mp", Put: &prog.PutSpec{}, Valid: true},
+						{Kind: "uploadPart", Caller: "root", B: b, K: "mp", UpRef: true, Num: 1, Data: []prog.Seg{{Seed: 1700, Off: 0, Len: 50}}}}
+				},
+				gen: func(g *prog.Gen, i int) []*prog.Op {
+					b := "ro-v"
+					var ops []*prog.Op
+					for _, c := range []string{"root", "u:adm1", "u:up1", "u:usr1"} {
+						cand := []*prog.Op{
+							{Kind: "deleteObject", Caller: c, B: b, K: "k1", VidRef: 1}, {Kind: "deleteObject", Caller: c, B: b, K: "k1", VidRef: 2},
+							{Kind: "deleteObject", Caller: c, B: b, K: "dir/k2", VidRef: 1}, {Kind: "deleteObject", Caller: c, B: b, K: "k1"},
+							{Kind: "uploadPart", Caller: c, B: b, K: "mp", UpRef: true, Num: 2, Data: []prog.Seg{{Seed: 1701 + i, Off: 0, Len: 30}}},
+							{Kind: "uploadPartCopy", Caller: c, B: b, K: "mp", UpRef: true, Num: 3, SB: b, SK: "dir/k2"},
+							{Kind: "abortUpload", Caller: c, B: b, K: "mp", UpRef: true},
+							{Kind: "createUpload", Caller: c, B: b, K: "mp2", Put: &prog.PutSpec{}, Valid: true},
+							{Kind: "getObject", Caller: c, B: b, K: "k1", VidRef: 2}, {Kind: "listVersions", Caller: c, B: b},
+							{Kind: "putVersioning", Caller: c, B: b, On: false},
+						}
+						g.R.Shuffle(len(cand), func(x, y int) { cand[x], cand[y] = cand[y], cand[x] })
+						ops = append(ops, cand[:6]...)
+					}
+					return append(ops, &prog.Op{Kind: "listVersions", Caller: "root", B: b}, &prog.Op{Kind: "listParts", Caller: "root", B: b, K: "mp", UpRef: true})
 				}})
 		}, func(a lib.Args, res *lib.Result) error {
 			return runPrograms(a, res, progOpts{name: "readonly-versioned", prop: "C15", programs: tierN(a, 60, 800), maxOps: 40, readonly: true, versioning: true,
